@@ -73,6 +73,14 @@ def corpus(env):
                 s.call("export", ctx="BS", exctx="@z:63:2000", len=8160)
                 if aead != 0xFFFF:
                     s.call("seal", ctx="BS", api="inplace", pt="@z:64:5000", aad="@z:65:70000", out="bm")
+                # inputs every build has to refuse in the same way
+                bad_enc = "00" * 32 if kem == 0x0020 else "$kR.pk^flip:9"
+                s.call("setup_r", mode=0, skr="$kR.sk", enc=bad_enc, info="-", out="BAD")
+                s.call("decap", skr="$kR.sk", enc=bad_enc)
+                s.call("setup_s", mode=0, pkr=bad_enc, info="-", rng=g.rbytes(gen.nsk(kem)), out="BAD2")
+                if kem == 0x0020:
+                    s.call("decap", skr="$kR.sk", enc="01" + "00" * 31)
+                    s.call("decap", skr="$kR.sk", enc="ecffffffffffffffffffffffffffffffffffffffffffffffffffffffffffff7f")
                 s.call("from_bytes", kind="pk", bytes="$kR.pk^flip:9")
                 s.call("from_bytes", kind="sk", bytes="$kR.sk^trunc:5")
                 s.call("encap", pkr="$kR.pk", rng=g.rbytes(gen.nsk(kem)), out="e")
@@ -300,8 +308,19 @@ def guard_and_targets(env, text, ref_sessions):
     if rc not in (0, None) and (failed or classify_build_failure(o) == "crate"):
         env.violation("C17:tests_guard_on", "crate tests fail with --cfg hpke_verif: %s" % (failed or re.findall(r"^error.*$", o, re.M)[:3]), workload="features")
     # examples built and run, bench built
-    for name, feats, run_it in (("client_server", "x25519", True), ("agility", "p256,p384,p521,x25519", True)):
-        rc, o, dt = sh(["cargo", "run", "--offline", "--example", name, "--no-default-features", "--features", feats + ",alloc", "--target-dir", tdir], fw.REPO, e, 1800)
+    # every example under exactly the required-features its manifest entry declares (on top of the default features,
+    # which is what `cargo run --example X --features ...` gives a user)
+    import tomllib
+    with open(os.path.join(fw.REPO, "Cargo.toml"), "rb") as fh:
+        manifest = tomllib.load(fh)
+    examples = [(ex["name"], ",".join(ex.get("required-features", []))) for ex in manifest.get("example", [])]
+    present = {os.path.splitext(f)[0] for f in os.listdir(os.path.join(fw.REPO, "examples")) if f.endswith(".rs")}
+    for missing in sorted(present - {n for n, _ in examples}):
+        examples.append((missing, ""))
+    env.extra_cov["examples_from_manifest"] = examples
+    for name, feats in examples:
+        cmd = ["cargo", "run", "--offline", "--example", name, "--target-dir", tdir] + (["--features", feats] if feats else [])
+        rc, o, dt = sh(cmd, fw.REPO, e, 1800)
         env.extra_cov["example_" + name] = {"rc": rc, "s": round(dt, 1)}
         env.count("evaluations", 1)
         if rc is None:
